@@ -469,3 +469,80 @@ def loop_exits(fn) -> int:
                     if isinstance(x, (ast.Break, ast.Continue)):
                         n += 1
     return n
+
+
+def oneshot_params(fn):
+    """[(node, message)]: a parameter declared as a plain Iterable / Iterator (or the card forms, which include generators) is read more
+    than once, or inside a loop, before it is re-bound to a materialised copy - the second reader of a generator finds it empty.
+    isinstance tests and error messages do not count as reads"""
+    out = []
+    a = fn.args
+    skip = set()
+    for n in ast.walk(fn):
+        if isinstance(n, ast.Call) and isinstance(n.func, ast.Name) and n.func.id in ('isinstance', 'repr', 'type', 'id', 'len'):
+            skip |= {id(x) for x in ast.walk(n)}
+        if isinstance(n, ast.Raise):
+            skip |= {id(x) for x in ast.walk(n)}
+    for p in a.posonlyargs + a.args + a.kwonlyargs:
+        if p.annotation is None:
+            continue
+        ann = ast.unparse(p.annotation).strip()
+        if '|' in ann or not (ann.startswith(('Iterable[', 'Iterator[')) or ann == 'CardsLike'):
+            continue
+        rebound = None
+        for st in fn.body:
+            if isinstance(st, ast.Assign) and len(st.targets) == 1 and isinstance(st.targets[0], ast.Name) and st.targets[0].id == p.arg:
+                rebound = st.lineno
+                break
+        def visit(n, depth):
+            """reads of the parameter on the longest alternative through ``n`` (the arms of an if / match are alternatives)"""
+            if isinstance(n, (ast.FunctionDef, ast.Lambda)) and n is not fn:
+                depth += 1          # a nested function may run any number of times
+            if isinstance(n, (ast.For, ast.AsyncFor)):
+                return visit(n.iter, depth) + [r for b in n.body + n.orelse for r in visit(b, depth + 1)]
+            if isinstance(n, ast.While):
+                return [r for c in ast.iter_child_nodes(n) for r in visit(c, depth + 1)]
+            if isinstance(n, ast.If):
+                arms = [[r for b in n.body for r in visit(b, depth)], [r for b in n.orelse for r in visit(b, depth)]]
+                return visit(n.test, depth) + max(arms, key=lambda rs: (any(d > 0 for _, d in rs), len(rs)))
+            if isinstance(n, ast.Match):
+                arms = [[r for b in c.body for r in visit(b, depth)] for c in n.cases] or [[]]
+                return visit(n.subject, depth) + max(arms, key=lambda rs: (any(d > 0 for _, d in rs), len(rs)))
+            if isinstance(n, ast.IfExp):
+                arms = [visit(n.body, depth), visit(n.orelse, depth)]
+                return visit(n.test, depth) + max(arms, key=len)
+            if isinstance(n, (ast.ListComp, ast.SetComp, ast.GeneratorExp, ast.DictComp)):
+                out_ = visit(n.generators[0].iter, depth)
+                for g in n.generators[1:]:
+                    out_ += visit(g.iter, depth + 1)
+                for g in n.generators:
+                    for i in g.ifs:
+                        out_ += visit(i, depth + 1)
+                for e in ([n.key, n.value] if isinstance(n, ast.DictComp) else [n.elt]):
+                    out_ += visit(e, depth + 1)
+                return out_
+            if isinstance(n, ast.Call) and isinstance(n.func, ast.Name) and n.func.id in ('partial', 'repeat', 'cycle', 'starmap'):
+                # frozen into a callable / stream that is used any number of times
+                return [r for c in ast.iter_child_nodes(n) for r in visit(c, depth + 1)]
+            if isinstance(n, ast.Name):
+                return [(n, depth)] if n.id == p.arg and isinstance(n.ctx, ast.Load) and id(n) not in skip else []
+            return [r for c in ast.iter_child_nodes(n) for r in visit(c, depth)]
+        def rebinds(st) -> bool:
+            if isinstance(st, ast.Assign):
+                return any(isinstance(t, ast.Name) and t.id == p.arg for t in st.targets)
+            if isinstance(st, ast.If):
+                return all(any(rebinds(x) or isinstance(x, (ast.Raise, ast.Return)) for x in arm) for arm in (st.body, st.orelse)) and bool(st.orelse)
+            return False
+        reads = []
+        for st in fn.body:
+            reads += visit(st, 0)
+            if rebinds(st):
+                break
+        pre = reads
+        # reads in different arms of one if / match are alternatives: count per path is what matters - approximated by distinct
+        # enclosing branch: two reads count only if one does not sit in an arm the other is outside of ... (kept simple: top-level sequence)
+        if any(d > 0 for _, d in pre) or len(pre) > 1:
+            n0 = next((n for n, d in pre if d > 0), pre[-1][0])
+            out.append((n0, f'parameter `{p.arg}` ({ann}) may be a one-shot iterator and is read {len(pre)} time(s)'
+                            f'{", inside a loop" if any(d > 0 for _, d in pre) else ""} before being materialised'))
+    return out
